@@ -3,7 +3,7 @@
    "behaves like a fresh copy trained on the implied multiset" is then checked against the code
    by comparing the wrapped (recording / real) classifier with that state after every operation. *)
 From Coq Require Import ZArith List Bool.
-From V Require Import Base.OptOrder Model.PoolQuery Model.IndexWrapper Proofs.IndexWrapperProofs.
+From V Require Import Base.OptOrder Model.PoolQuery Model.IndexWrapper Proofs.IndexWrapperProofs Model.KernelCache Proofs.KernelCacheProofs.
 Import ListNotations.
 
 (* the stored base model changes only through set_base_clf=True *)
@@ -25,6 +25,25 @@ Theorem C19_base_restart : forall c s1 s2 b sb,
 Proof. exact partial_from_base_ignores_current. Qed.
 Print Assumptions C19_base_restart.
 
+
+(* ---- the precomputed-kernel speed-up for the Parzen window classifier never changes a prediction ----
+   every entry of the cache that is not NaN is the kernel value of its two samples, after ANY history
+   of precompute calls (any index lists, any labeled / unlabeled filters); a lookup either raises
+   (None) or hands the classifier exactly the kernel matrix it would compute itself *)
+Theorem C19_kernel_cache_sound :
+  forall (k : nat -> nat -> Z) (lab : list bool) (n : nat) (h : list pcall) (i j : nat) (v : Z),
+  cget (run_calls k lab (empty_cache n) h) i j = Some v -> v = k i j.
+Proof. intros k lab n h. exact (cache_sound k lab n h). Qed.
+Print Assumptions C19_kernel_cache_sound.
+
+Theorem C19_speed_up_transparent :
+  forall (k : nat -> nat -> Z) (lab : list bool) (n : nat) (h : list pcall) (train query : list nat) (P : list (list Z)),
+  (forall i j, k i j = k j i) ->
+  lookup (run_calls k lab (empty_cache n) h) train query = Some P -> P = direct k train query.
+Proof. exact speed_up_transparent. Qed.
+Print Assumptions C19_speed_up_transparent.
+
+
 (* emulated partial_fit, any operation sequence: the current and the base model are always a
    single refit on the concatenated data, and with enforce_unique_samples their sample indices
    stay pairwise distinct (re-labelled samples replace their old entry) *)
@@ -43,3 +62,12 @@ Example C19_nonvacuous :
   run c init [OFit [t 0%nat 1%Z; t 1%nat 0%Z] true; OPartial [t 2%nat 1%Z] false false; OPartial [t 1%nat 1%Z; t 3%nat 0%Z] true false]
   = inl {| cur := Some [[t 0%nat 1%Z; t 1%nat 1%Z; t 3%nat 0%Z]]; base := Some [[t 0%nat 1%Z; t 1%nat 0%Z]] |}.
 Proof. vm_compute. reflexivity. Qed.
+
+(* non-vacuity of the cache theorems: linear kernel on coordinates 0,1,2,3; the labeled samples 0 and 2
+   are precomputed against 1 and 3; looking up sample 1 succeeds, sample 0 raises *)
+Example C19_kernel_cache_nonvacuous :
+  let k := fun i j => (Z.of_nat i * Z.of_nat j)%Z in
+  let lab := [true; false; true; false] in
+  let c := precompute k lab (empty_cache 4) [0; 2]%nat [1; 3; 3]%nat PLabeled PAll in
+  lookup c [0; 2]%nat [1%nat] = Some [[0; 2]%Z] /\ lookup c [0; 2]%nat [0%nat] = None /\ cget c 2 3 = Some 6%Z.
+Proof. vm_compute. repeat split; reflexivity. Qed.
